@@ -37,7 +37,9 @@ def run_job(job):
     for step in job['steps']:
         os.chdir(step['cwd'])
         plan = {int(a): tuple(b) for a, b in (step.get('fault') or {}).items()}
-        fs = SimFS(job['scratch'], plan=plan)
+        wplan = {int(a): tuple(b) for a, b in (step.get('fault_w') or {}).items()}
+        oplan = {int(a): tuple(b) for a, b in (step.get('fault_o') or {}).items()}
+        fs = SimFS(job['scratch'], plan=plan, wplan=wplan, oplan=oplan)
         crashed = False
         st, so, se, exc = None, '', '', None
         inject = step.get('inject')
@@ -70,6 +72,7 @@ def run_job(job):
                 undo()
         out['steps'].append({'status': st, 'crashed': crashed,
                              'exc': None if exc is None else '%s: %s' % (type(exc).__name__, exc),
+                             'tb': None if exc is None else ''.join(__import__('traceback').format_exception(type(exc), exc, exc.__traceback__))[-3000:],
                              'stdout': so[-4000:], 'stderr': se[-3000:], 'calls': fs.calls,
                              'faults': fs.fault_counts})
     del keep
